@@ -19,11 +19,12 @@ META = {
                "pushed / tag / ciphertext = Some); R-3 verify/decrypt return the closure's return value itself; R-4 in the fallible "
                "variants the closure's Err is propagated before anything is stored; R-5 the crate has no statics and no interior " 
                "mutability, so helpers depend only on the builder's current value.",
-    "does_not_decide": "that the protected headers and payload survive the wire for all contents (C02 + C07 + ciborium); the perturbation "
+    "does_not_decide": "(as built: the carrier codec tables are re-checked under R-6; what remains undecided is ciborium\'s own round trip) that the protected headers and payload survive the wire for all contents (C02 + C07 + ciborium); the perturbation "
                        "clause (any change of AAD/payload/header changes the bytes) is a corollary of C03-C05 injectivity, not checked",
     "trusted_base": ["C02, C03-C05, C07", "ciborium round trip of byte strings"],
 }
 META["decides"] += ' (As built: every helper is analysed with all crate-local callees expanded in place; the stored value is the effect on self.<field> of the expanded body.)'
+META["decides"] += " R-6 (serialise and parse back): the encoder / decoder tables of the eight carrier types are mutually inverse (C07's recogniser); derived Clone."
 
 # carrier -> (create helpers, verify helpers) that must agree
 FAMILIES = {
